@@ -197,8 +197,9 @@ fn main() {
         "stack-probe" => {
             let n: usize = arg(&args, "--chain").and_then(|s| s.parse().ok()).unwrap_or(100000);
             let st: usize = arg(&args, "--stack").and_then(|s| s.parse().ok()).unwrap_or(2 << 20);
-            let ok = chain::stack_probe(n, st);
-            println!("stack-probe: chain={} stack={} ok={}", n, st, ok);
+            let kind = arg(&args, "--kind").unwrap_or_else(|| "chain".to_string());
+            let ok = if kind == "chain" { chain::stack_probe(n, st) } else { chain::stack_probe_kind(&kind, n, st) };
+            println!("stack-probe: kind={} nodes={} stack={} ok={}", kind, n, st, ok);
             std::process::exit(if ok { 0 } else { 1 });
         }
         "traits" => {
